@@ -35,6 +35,8 @@ type output struct {
 	PathsRechecked int64                         `json:"paths_final_pc_rechecked_sat"`
 	FreshRetries   int64                         `json:"fresh_solver_retries"`
 	FreshDecided   int64                         `json:"fresh_solver_decided"`
+	SessionRestart int64                         `json:"solver_sessions_restarted"`
+	SolverErrors   int64                         `json:"solver_error_answers"`
 	AssertsChecked int64                         `json:"asserts_symbolic"`
 	AssertsConc    int64                         `json:"asserts_concrete"`
 	Queries        int64                         `json:"queries"`
@@ -199,7 +201,7 @@ func main() {
 	o := output{
 		Entry: pkgPath + "." + *entry, Solver: spec.Name, Workers: *workers, LoadS: loadS, WallS: res.Wall.Seconds(),
 		Completed: res.Completed, Pruned: res.Pruned, Forks: res.Forks, SolverDecided: res.SolverDecided,
-		UnsatPruned: res.UnsatPruned, UnknownKept: res.UnknownKept, CacheHits: res.CacheHits, CrossChecked: res.CrossChecked, CrossDisagree: res.CrossDisagree, PathsRechecked: res.PathsRechecked, FreshRetries: res.FreshRetries, FreshDecided: res.FreshDecided, AssertsChecked: res.AssertsChecked,
+		UnsatPruned: res.UnsatPruned, UnknownKept: res.UnknownKept, CacheHits: res.CacheHits, CrossChecked: res.CrossChecked, CrossDisagree: res.CrossDisagree, PathsRechecked: res.PathsRechecked, FreshRetries: res.FreshRetries, FreshDecided: res.FreshDecided, SessionRestart: res.SolverHangs, SolverErrors: res.SolverErrors, AssertsChecked: res.AssertsChecked,
 		AssertsConc: res.AssertsConc, Queries: res.Queries, SolverS: float64(res.SolverNanos) / 1e9,
 		Steps: res.Steps, MapRangesFixed: res.MapRangesFixed, MapRangesPerm: res.MapRangesPerm,
 		Violations: res.Violations, ViolationCount: res.ViolationCount, Inconclusive: res.Inconclusive,
